@@ -8,6 +8,7 @@ import (
 	"fmt"
 	"go/token"
 	"go/types"
+	"os"
 	"sort"
 	"strings"
 
@@ -32,6 +33,7 @@ type a3 struct {
 	rows     []*reviewRow
 	noExpand bool
 	cbBind   map[*ssa.Parameter][]*ssa.Function // callback parameters bound to the functions one call site passes
+	s1       *s1
 }
 
 type cdInfo struct {
@@ -1114,6 +1116,16 @@ func (a *a3) partitionLeak(h *ssa.BasicBlock, ind *ssa.Phi, reg map[*ssa.BasicBl
 	if s := a.memoryCarried(ind, reg); s != "" {
 		return s
 	}
+	body := reg
+	if li := loopOf(h); li != nil {
+		body = li.body // the whole loop body, nested blocks included
+	}
+	if os.Getenv("VERIF_DEBUG") != "" {
+		fmt.Fprintf(os.Stderr, "V3obj loop %s header %d reg=%d body=%d\n", h.Parent().Name(), h.Index, len(reg), len(body))
+	}
+	if s := a.objectCarried(body); s != "" {
+		return s
+	}
 	for _, in := range h.Instrs {
 		phi, ok := in.(*ssa.Phi)
 		if !ok {
@@ -1351,4 +1363,72 @@ func funcParamOf(v ssa.Value) *ssa.Parameter {
 		}
 	}
 	return nil
+}
+
+// objectCarried: inside a partition loop a call hands on a pointer to a struct that lives across the
+// items (it is not created inside the loop) and the callee reads a scalar field of it that it also
+// writes (S1 summaries: upward-exposed read and may-write of the same location): sequential state
+// - a random generator, a running predictor - advances from item to item, so what an item sees
+// depends on which items the same worker handled before, i.e. on the partition.
+func (a *a3) objectCarried(reg map[*ssa.BasicBlock]bool) string {
+	if a.s1 == nil {
+		a.s1 = newS1(a.p)
+	}
+	for b := range reg {
+		for _, in := range b.Instrs {
+			call, ok := in.(*ssa.Call)
+			if !ok {
+				continue
+			}
+			cal := call.Call.StaticCallee()
+			if cal == nil || cal.Blocks == nil || !a.p.IsModFunc(cal) {
+				continue
+			}
+			for i, arg := range call.Call.Args {
+				if structOf(arg.Type()) == nil {
+					continue
+				}
+				// created inside the loop: fresh per item
+				if ai, ok := arg.(ssa.Instruction); ok && reg[ai.Block()] {
+					continue
+				}
+				if i >= len(cal.Params) {
+					continue
+				}
+				sm := a.s1.summary(cal, i, false)
+				if os.Getenv("VERIF_DEBUG") != "" {
+					fmt.Fprintf(os.Stderr, "V3obj %s arg %d ue=%v mayW=%v\n", cal.Name(), i, len(sm.ue), sm.mayW.sorted())
+				}
+				var locs []string
+				for loc := range sm.ue {
+					if strings.HasSuffix(loc, "[]") || loc == "*" {
+						continue
+					}
+					if !sm.mayW[loc] {
+						continue
+					}
+					// sequential state is a scalar (a position, a counter, a running value); arrays and
+					// slices are scratch memory whose element-wise fills S1 cannot see as overwrites
+					st := structOf(arg.Type())
+					scalar := false
+					for fi := 0; fi < st.NumFields(); fi++ {
+						if st.Field(fi).Name() == loc {
+							if bt, ok := st.Field(fi).Type().Underlying().(*types.Basic); ok && bt.Info()&(types.IsNumeric|types.IsBoolean) != 0 {
+								scalar = true
+							}
+						}
+					}
+					if scalar {
+						locs = append(locs, loc)
+					}
+				}
+				if len(locs) == 0 {
+					continue
+				}
+				sort.Strings(locs)
+				return fmt.Sprintf("%s is handed the object %s, which outlives the work item, and both reads and updates its field(s) %s: the object carries state from item to item inside one worker, so what an item sees depends on where the partition starts (%s)", cal.Name(), arg.Name(), strings.Join(locs, ", "), a.p.Pos(call.Pos()))
+			}
+		}
+	}
+	return ""
 }
